@@ -12,17 +12,19 @@
 (***************************************************************************)
 EXTENDS Integers, Sequences, FiniteSets, TLC, Json
 
-CONSTANTS MaxRuns, MaxRows, LDepth, Versions
+CONSTANTS MaxRuns, MaxRows, LDepth, MaxReads
 
-VARIABLES sims, ver, lh
-lvars == <<sims, ver, lh>>
+VARIABLES sims, ver, lh, cur      \* cur: the log being written (a shape under construction) or NoLog
+lvars == <<sims, ver, lh, cur>>
+NoLog == [runs |-> <<>>, open |-> FALSE]
 
 ColSets == { <<"Step", "Temp">>, <<"Step", "PotEng", "Press", "Atoms">> }
 Rels == {"cont", "gap", "overlap", "same"}
-RunShapes == [cols : ColSets, n : 1..MaxRows, rel : Rels]
-\* shapes: sequences of 1..MaxRuns runs
-RunSeqs == UNION { [1..k -> RunShapes] : k \in 1..MaxRuns }
-Shapes == [runs : RunSeqs, trunc : {-1, 0, 1}, banner : {"old", "new"}, timing : BOOLEAN, version : Versions, blanks : BOOLEAN]
+\* presentation styles (which memory banner, timing breakdown present, version banner, blank lines sprinkled in)
+Styles == { [banner |-> "old", timing |-> FALSE, version |-> "v1", blanks |-> FALSE],
+            [banner |-> "new", timing |-> TRUE,  version |-> "v2", blanks |-> TRUE],
+            [banner |-> "new", timing |-> FALSE, version |-> "v1", blanks |-> TRUE],
+            [banner |-> "old", timing |-> TRUE,  version |-> "v2", blanks |-> FALSE] }
 
 \* first step of run k (steps advance by 10)
 RECURSIVE FirstStep(_, _)
@@ -36,11 +38,15 @@ FirstStep(runs, k) ==
 \* monotone logs only: every run starts and ends no earlier than the previous one
 Monotone(runs) == \A k \in 2..Len(runs) :
     FirstStep(runs, k) + 10 * (runs[k].n - 1) >= FirstStep(runs, k-1) + 10 * (runs[k-1].n - 1)
-Cell(k, c, step) == IF c = 1 THEN step ELSE 1000 * k + 7 * (step \div 10) + c       \* deterministic cell code
-RowOf(runs, k, j) == LET st == FirstStep(runs, k) + 10 * (j - 1) IN [c \in 1..Len(runs[k].cols) |-> Cell(k, c, st)]
+Cell(k, c, step) == IF c = 1 THEN step ELSE 100 * k + 7 * (step \div 10) + c        \* deterministic cell code (k: global run number)
+RowOf(runs, k, j, salt, s0) == LET st == s0 + FirstStep(runs, k) + 10 * (j - 1) IN [c \in 1..Len(runs[k].cols) |-> Cell(k + salt, c, st)]
 \* rows actually printed for run k
 Printed(sh, k) == IF k = Len(sh.runs) /\ sh.trunc >= 0 THEN (IF sh.trunc < sh.runs[k].n THEN sh.trunc ELSE sh.runs[k].n) ELSE sh.runs[k].n
-Tables(sh) == [k \in 1..Len(sh.runs) |-> [cols |-> sh.runs[k].cols, rows |-> [j \in 1..Printed(sh, k) |-> RowOf(sh.runs, k, j)]]]
+Tables(sh, salt, s0) == [k \in 1..Len(sh.runs) |-> [cols |-> sh.runs[k].cols, rows |-> [j \in 1..Printed(sh, k) |-> RowOf(sh.runs, k, j, salt, s0)]]]
+\* the domain: printed step ranges never go backwards from one (non-empty) table to the next
+NonEmpty(ts) == SelectSeq(ts, LAMBDA t : Len(t.rows) > 0)
+PrintedMonotone(ts) == LET ne == NonEmpty(ts) IN \A k \in 2..Len(ne) :
+    ne[k].rows[1][1] >= ne[k-1].rows[1][1] /\ ne[k].rows[Len(ne[k].rows)][1] >= ne[k-1].rows[Len(ne[k-1].rows)][1]
 WellFormed(sh) == Monotone(sh.runs) /\ (sh.trunc >= 0 => ~sh.timing \/ Len(sh.runs) > 1)
 
 \* ---- flatten, specified on step sets ------------------------------------------------------------------
@@ -57,26 +63,38 @@ FlatAll(ts) == [n |-> LET S == [k \in 1..Len(ts) |-> Len(ts[k].rows)] IN IF Len(
                        LET RECURSIVE Sum(_) Sum(i) == IF i = 0 THEN 0 ELSE S[i] + Sum(i-1) IN Sum(Len(ts))]
 
 \* ---- the Log object -----------------------------------------------------------------------------------------
-LInit == sims = <<>> /\ ver = "none" /\ lh = <<>>
-Read == \E sh \in Shapes : \E append \in BOOLEAN : \E kind \in {"text", "path", "stream"} :
-    WellFormed(sh) /\
-    LET base == IF append THEN sims ELSE <<>>
+LInit == sims = <<>> /\ ver = "none" /\ lh = <<>> /\ cur = NoLog
+\* a LAMMPS process writes a log: banner, then run after run, then it ends (normally, or cut short)
+NReads == Cardinality({k \in 1..Len(lh) : lh[k].act = "read"})
+StartLog == ~cur.open /\ NReads < MaxReads /\ \E st \in Styles : cur' = [runs |-> <<>>, open |-> TRUE, style |-> st] /\ UNCHANGED <<sims, ver, lh>>
+AddRun == cur.open /\ Len(cur.runs) < MaxRuns /\
+          \E cs \in ColSets : \E n \in 1..MaxRows : \E rel \in (IF Len(cur.runs) = 0 THEN {"cont"} ELSE Rels) :
+             LET runs2 == Append(cur.runs, [cols |-> cs, n |-> n, rel |-> rel]) IN
+             Monotone(runs2) /\ cur' = [cur EXCEPT !.runs = runs2] /\ UNCHANGED <<sims, ver, lh>>
+\* the finished log is read: trunc = -1 complete, r >= 0: final block cut after r rows (0 = right after its header)
+Read == cur.open /\ Len(cur.runs) > 0 /\ \E trunc \in {-1, 0, 1} : \E append \in BOOLEAN : \E kind \in {"text", "path", "stream"} :
+    LET sh == [runs |-> cur.runs, trunc |-> trunc, banner |-> cur.style.banner, timing |-> cur.style.timing,
+               version |-> cur.style.version, blanks |-> cur.style.blanks]
+        base == IF append THEN sims ELSE <<>>
         v0 == IF append THEN ver ELSE "none"
-        s2 == base \o Tables(sh)
+        s0 == IF append /\ Len(NonEmpty(sims)) > 0 /\ cur.style.timing THEN LET ne == NonEmpty(sims) IN ne[Len(ne)].rows[Len(ne[Len(ne)].rows)][1] ELSE 0
+        s2 == base \o Tables(sh, Len(base), s0)     \* a restarted simulation continues the step count (s0) or starts again at 0
         v2 == IF v0 = "none" THEN sh.version ELSE v0 IN
+    /\ (trunc >= 0 => trunc < cur.runs[Len(cur.runs)].n)
     /\ Len(s2) <= 2 * MaxRuns
-    /\ sims' = s2 /\ ver' = v2
+    /\ PrintedMonotone(s2)
+    /\ sims' = s2 /\ ver' = v2 /\ cur' = NoLog
     /\ lh' = Append(lh, [act |-> "read", shape |-> sh, append |-> append, kind |-> kind, sims |-> s2, version |-> v2])
 Flatten == \E style \in {"first", "last", "all"} :
-    /\ Len(sims) > 0 /\ UNCHANGED <<sims, ver>>
+    /\ ~cur.open /\ Len(sims) > 0 /\ UNCHANGED <<sims, ver, cur>>
     /\ lh' = Append(lh, [act |-> "flatten", style |-> style,
                          expect |-> IF style = "all" THEN {} ELSE FlatExpect(sims, style), nall |-> FlatAll(sims).n, sims |-> sims, version |-> ver])
-LNext == Len(lh) < LDepth /\ (Read \/ Flatten)
+LNext == Len(lh) < LDepth /\ (StartLog \/ AddRun \/ Read \/ Flatten)
 
 \* design-level: every step of every run appears exactly once in a first/last flattening
 FlattenCovers == \A style \in {"first", "last"} :
     Len(sims) > 0 => (Cardinality(FlatExpect(sims, style)) = Cardinality(AllSteps(sims)) /\ {p.step : p \in FlatExpect(sims, style)} = AllSteps(sims))
 OneRecordPerRun == \A k \in 1..Len(lh) : lh[k].act = "read" =>
     Len(lh[k].sims) = (IF lh[k].append /\ k > 1 THEN Len(lh[k-1].sims) ELSE 0) + Len(lh[k].shape.runs)
-LEmit == Len(lh) = LDepth => PrintT("@@CASE " \o ToJson(lh))
+LEmit == (Len(lh) = LDepth /\ ~cur.open) => PrintT("@@CASE " \o ToJson(lh))
 ====
